@@ -15,7 +15,7 @@ RULE = (
     "peer has 1-3 threads blocked in receive(), 0-2 waitclose() callers and optionally sends items the other way. "
     "Both gateway ends run in-process under the deterministic scheduler (bounded-preemption schedules, line-level "
     "preemption; part 'focused' enumerates every single preemption inside the channel close/receive functions x 5 "
-    "continuation patterns). Oracle: the peer's receivers together get exactly the sent items, each in order, then "
+    "alternative threads). Oracle: the peer's receivers together get exactly the sent items, each in order, then "
     "EOFError on 4 consecutive receive() calls each; waitclose returns; afterwards on the peer and immediately on the "
     "closing side send raises OSError, isclosed() is true, waitclose returns at once, a second close is a no-op and "
     "puts no second close frame on the wire; the closing side's own receiver sees a prefix of what was sent to it. "
@@ -126,7 +126,7 @@ class Sched(Part):
 
 
 class Focused(Part):
-    """every single preemption at a source line inside the channel close/receive machinery, x 5 continuation patterns"""
+    """every single preemption at a source line inside the channel close/receive machinery, x every alternative thread"""
 
     name = "focused"
     budget = {"quick": 16, "thorough": 800}
@@ -141,25 +141,29 @@ class Focused(Part):
     def run(self, case, ctx):
         single = case.get("single")
         if single is not None:
-            out, ex = run_case(case, preempt_at=(single[0],), sparse=dict(pre=[], blk=BLK_PATTERNS[single[1]]), focus=FOCUS)
+            out, ex = run_case(case, preempt_at=(single[0],), sparse=dict(pre=[], blk=[], line_pick=single[1]), focus=FOCUS)
             judge(case, out, ex)
             return dict(nontrivial=True)
-        base = dict(pre=[], blk=[])
-        out0, ex = run_case(case, count_lines=True, sparse=base, focus=FOCUS)
+        from vlib import explore
+
+        out0, ex = run_case(case, count_lines=True, sparse=dict(pre=[], blk=[]), focus=FOCUS)
         judge(case, out0, ex)
         n = out0.lines
-        stride = 1 if ctx.tier == "thorough" else max(1, n // 150)
-        runs, viol = 0, []
-        for line in range(1 + ctx.seed % stride, n + 1, stride):
-            for bi, blk in enumerate(BLK_PATTERNS):
-                runs += 1
-                try:
-                    out, ex = run_case(case, preempt_at=(line,), sparse=dict(pre=[], blk=blk), focus=FOCUS)
-                    judge(case, out, ex)
-                except Violation as v:
-                    viol.append((v, dict(case, single=[line, bi])))
-                except Inconclusive:
-                    ctx.count("inconclusive_runs")
+        stride = 1 if (ctx.tier == "thorough" or n <= 1500) else max(1, n // 1500)
+
+        def one(line, alt):
+            out, ex = run_case(case, preempt_at=(line,), sparse=explore.line_sparse(alt), focus=FOCUS)
+            try:
+                judge(case, out, ex)
+            except Violation as v:
+                v.sched = out.sched
+                raise
+            return out.sched
+
+        runs, found, inc = explore.single_preemptions(one, n, stride, ctx.seed)
+        viol = [(v, dict(case, single=list(la))) for v, la in found]
+        if inc:
+            ctx.count("inconclusive_runs", inc)
         p = case["convs"][0]
         return dict(count=runs, nontrivial_count=runs, violations=viol[:3], nontrivial=True,
                     labels=[f"{p['chan']}/{p['closer']}/{p['how']}", "complete" if stride == 1 else "strided"],
